@@ -63,3 +63,38 @@ package util
 //@   trusted
 //@   ensures [hook-lists-untouched] forall l []*rspb.Hook, i int :: !fresh(l) ==> l[i] == old(l[i])
 //@   ensures [heads-parsed] forall j int :: 0 <= j && j < len(result1) ==> result1[j].Head != nil
+
+// ---- C08: every document of a rendered file goes to exactly one place — the manifest list, or the hook
+// list when its hook annotation names only known events — unaltered; a document naming an unknown
+// event is dropped.
+
+//@ ghost func eventName(anno string, j int) string = lower(trimspace(splitAt(anno, ",", j)))
+//@ ghost func allEventsKnown(anno string) bool = forall j int :: 0 <= j && j < splitLen(anno, ",") ==> has(events, eventName(anno, j))
+//@ ghost func hookFromDoc(h *rspb.Hook) bool = h != nil && docHasHookAnno(h.Manifest) && allEventsKnown(docHookAnno(h.Manifest)) && len(h.Events) == splitLen(docHookAnno(h.Manifest), ",") && (forall j int :: 0 <= j && j < len(h.Events) ==> h.Events[j] == events[eventName(docHookAnno(h.Manifest), j)])
+
+//@ func hasAnyAnnotation
+//@   props C08
+//@   ensures [some] result ==> entry.Metadata != nil && entry.Metadata.Annotations != nil
+//@   ensures [none] !result ==> entry.Metadata == nil || entry.Metadata.Annotations == nil || (forall k string :: !has(entry.Metadata.Annotations, k))
+
+//@ ghost func sortedSoFar(result *result, h0 int, g0 int) bool = (forall q int :: h0 <= q && q < len(result.hooks) ==> hookFromDoc(result.hooks[q])) && (forall q int :: g0 <= q && q < len(result.generic) ==> !docHasHookAnno(result.generic[q].Content) && result.generic[q].Head != nil)
+
+//@ func (*manifestFile).sort
+//@   props C08
+//@   requires file != nil && result != nil && file.entries != nil
+//@   ensures [hooks-name-only-known-events] forall q int :: old(len(result.hooks)) <= q && q < len(result.hooks) ==> hookFromDoc(result.hooks[q])
+//@   ensures [manifests-carry-no-hook-annotation] forall q int :: old(len(result.generic)) <= q && q < len(result.generic) ==> !docHasHookAnno(result.generic[q].Content) && result.generic[q].Head != nil
+//@   ensures [earlier-entries-kept] len(result.hooks) >= old(len(result.hooks)) && len(result.generic) >= old(len(result.generic)) && (forall q int :: 0 <= q && q < old(len(result.hooks)) ==> result.hooks[q] == old(result.hooks[q])) && (forall q int :: 0 <= q && q < old(len(result.generic)) ==> result.generic[q] == old(result.generic[q]))
+//@   loop 2 invariant [hooks-name-only-known-events] forall q int :: old(len(result.hooks)) <= q && q < len(result.hooks) ==> hookFromDoc(result.hooks[q])
+//@   loop 2 invariant [manifests-carry-no-hook-annotation] forall q int :: old(len(result.generic)) <= q && q < len(result.generic) ==> !docHasHookAnno(result.generic[q].Content)
+//@   loop 2 invariant [manifests-have-heads] forall q int :: old(len(result.generic)) <= q && q < len(result.generic) ==> result.generic[q].Head != nil
+//@   loop 2 invariant [earlier-entries-kept] len(result.hooks) >= old(len(result.hooks)) && len(result.generic) >= old(len(result.generic)) && (forall q int :: 0 <= q && q < old(len(result.hooks)) ==> result.hooks[q] == old(result.hooks[q])) && (forall q int :: 0 <= q && q < old(len(result.generic)) ==> result.generic[q] == old(result.generic[q]))
+//@   loop 2 invariant [one-place-per-document] len(result.hooks) + len(result.generic) <= old(len(result.hooks)) + old(len(result.generic)) + #iter
+//@   loop 2 invariant [frame] result != nil && file.entries == old(file.entries) && file.entries != nil && (forall k string :: has(file.entries, k) == old(has(file.entries, k)) && file.entries[k] == old(file.entries[k]))
+//@   loop 3 invariant [all-known-so-far] h != nil && fresh(h) && len(h.Events) == #iter && (forall j int :: 0 <= j && j < #iter ==> has(events, lower(trimspace(#range[j]))) && h.Events[j] == events[lower(trimspace(#range[j]))])
+//@   loop 3 invariant [hook-under-construction] h.Manifest == m && (forall q int :: 0 <= q && q < len(result.hooks) ==> result.hooks[q] != h)
+//@   loop 3 invariant [hooks-name-only-known-events] forall q int :: old(len(result.hooks)) <= q && q < len(result.hooks) ==> hookFromDoc(result.hooks[q])
+//@   loop 3 invariant [manifests-carry-no-hook-annotation] forall q int :: old(len(result.generic)) <= q && q < len(result.generic) ==> !docHasHookAnno(result.generic[q].Content) && result.generic[q].Head != nil
+//@   loop 3 invariant [earlier-entries-kept] len(result.hooks) >= old(len(result.hooks)) && len(result.generic) >= old(len(result.generic)) && (forall q int :: 0 <= q && q < old(len(result.hooks)) ==> result.hooks[q] == old(result.hooks[q])) && (forall q int :: 0 <= q && q < old(len(result.generic)) ==> result.generic[q] == old(result.generic[q]))
+//@   loop 3 invariant [one-place-per-document] len(result.hooks) + len(result.generic) <= old(len(result.hooks)) + old(len(result.generic)) + #iter$2
+//@   loop 3 invariant [frame] result != nil && file.entries == old(file.entries) && file.entries != nil && (forall k string :: has(file.entries, k) == old(has(file.entries, k)) && file.entries[k] == old(file.entries[k]))
